@@ -68,6 +68,23 @@ func Items(quick bool) []Item {
 			add("nest", g.Seq(g.Grp(g.Opt(a()), m1), g.Lit("b")))
 		}
 	}
+	// modified / negated terms behind two layers that print nothing themselves (plain groups, captures)
+	plain := func(x *g.Node) *g.Node { return g.Grp(x, 0) }
+	capt := func(x *g.Node) *g.Node { return gfam.CapMark(x) }
+	layers := []func(*g.Node) *g.Node{plain, capt}
+	for _, w1 := range layers {
+		for _, w2 := range layers {
+			for _, m1 := range mods {
+				for _, m2 := range mods {
+					add("layers", g.Seq(g.Grp(w1(w2(g.Grp(g.Lit("a"), m1))), m2), g.Lit("b")))
+				}
+				add("layers", g.Seq(g.Neg(w1(w2(g.Grp(g.Lit("a"), m1)))), g.Lit("b")))
+				add("layers", g.Seq(g.Look(w1(w2(g.Grp(g.Lit("a"), m1))), '!'), g.Lit("b")))
+			}
+			add("layers", g.Seq(g.Neg(w1(w2(g.Neg(g.Lit("a"))))), g.Lit("b")))
+			add("layers", g.Seq(g.Neg(w1(w2(plain(g.Neg(g.Ref("Ident")))))), g.Lit("b")))
+		}
+	}
 	// ~, (?= ), (?! ) applied to literals, references, groups and modified terms; modifiers on them
 	wraps := []func(x *g.Node) *g.Node{
 		func(x *g.Node) *g.Node { return g.Neg(x) },
